@@ -107,6 +107,18 @@ def handleSubstOk (args : List String) : String :=
       b01 (match implShape m with | some sh => sh.des.isSome | none => false)]
   | _ => "bad-args"
 
+def handleSubstSome (args : List String) : String :=
+  match args with
+  | c :: hn :: mn :: rest =>
+    let (hd, md) := splitAt2 rest
+    let h : NNet := { net := parseNet (" ".intercalate hd), names := parseNames hn }
+    let m : NNet := { net := parseNet (" ".intercalate md), names := parseNames mn }
+    let ci := c.toNat!
+    " ".intercalate [b01 h.wfNoTrail, b01 (forksDenseB h.net), b01 m.wf, b01 (decide (ci < h.net.nodes.size) && !(h.net.io.contains ci)),
+      b01 (!((h.net.node ci).isFork)), b01 (implGenOKB m), b01 (targetsOKB m), b01 (noSelfIgnB h ci m), b01 (addFreshB h ci m),
+      b01 (arityOKB h ci m), b01 (substSomeHypB h ci m), b01 (substitute h ci m).isSome, b01 (implSomeOKB m)]
+  | _ => "bad-args"
+
 /-- `resolve <host names> <host dump...> @@ <kind> <impl names> <impl dump...> @@ <kind> ...` -/
 def splitBlocks : List String → List (List String)
   | [] => [[]]
@@ -181,6 +193,7 @@ def handle (cmd : String) (args : List String) : Option String :=
   if cmd == "subst" then some (handleSubst args) else
   if cmd == "resolve" then some (handleResolve args) else
   if cmd == "substok" then some (handleSubstOk args) else
+  if cmd == "substsome" then some (handleSubstSome args) else
   if cmd == "resolveok" then some (handleResolveOk args) else
   if cmd != "xform" then none else
   match args with
